@@ -167,17 +167,30 @@ Lemma disk_delete_structure_ok : disk_delete_stops_with_the_error = true.
 Proof. reflexivity. Qed.
 
 (* ---------- List over file names ---------- *)
-(* files written by Set are named str(id) and parse back (uuid.Parse (uuid.String id) = id, assumed): the listing of a
-   directory that holds exactly the files of the IDs [ids] is [ids] - the zero ID (nil UUID) included *)
+(* files written by Set are named str(id) and parse back (uuid.Parse (uuid.String id) = id, assumed); other files in the
+   directory have names that are no IDs.  The listing is exactly the stored IDs - the zero ID (nil UUID) included, the
+   foreign files ignored - in whatever order the directory is read *)
 Lemma list_names_exact : forall (name : Type) (str : N -> name) (parse : name -> option N),
   (forall i, parse (str i) = Some i) ->
-  forall ids, list_names parse list_yields_every_file (map str ids) = ids.
+  forall (entries : list (N + name)), (forall f, In (inr f) entries -> parse f = None) ->
+  list_names parse list_yields_every_file list_skips_foreign_names
+             (map (fun e => match e with inl i => str i | inr f => f end) entries)
+  = flat_map (fun e => match e with inl i => [i] | inr _ => [] end) entries.
 Proof.
-  intros name str parse Hrt ids. unfold list_names. change list_yields_every_file with true. cbv iota.
-  rewrite map_map. induction ids as [|i t IH]; [reflexivity|]. cbn [map]. rewrite Hrt, IH. reflexivity.
+  intros name str parse Hrt entries Hf. unfold list_names.
+  change list_yields_every_file with true. change list_skips_foreign_names with true. cbv iota.
+  induction entries as [|e t IH]; [reflexivity|]. cbn [map flat_map].
+  rewrite IH by (intros f Hin; apply Hf; right; exact Hin). destruct e as [i|f].
+  - rewrite Hrt. reflexivity.
+  - rewrite (Hf f (or_introl eq_refl)). reflexivity.
 Qed.
 
 (* if entries equal to the zero ID were dropped, a stored ID would be missing *)
 Lemma list_names_filter_refuted : exists (ids : list N),
-  list_names (fun n : N => Some n) false (map (fun i => i) ids) <> ids.
+  list_names (fun n : N => Some n) false true ids <> ids.
 Proof. exists [0%N; 5%N]. vm_compute. discriminate. Qed.
+
+(* before C09-fix-3: a foreign file is listed as the zero ID, which nobody stored *)
+Lemma list_names_foreign_refuted :
+  list_names (fun n : N => if N.eqb n 9 then None else Some n) true false [5%N; 9%N] = [5%N; 0%N].
+Proof. vm_compute. reflexivity. Qed.
